@@ -964,6 +964,19 @@ def oracle_raw(c, r):
             fails.append((where + ": reported factor message differs from the state", []))
         if dmap(o["global_alias"]) != glob:
             fails.append((where + ": model_dist (alias of mean_field) differs from mean_field", []))
+        if "global_vm" in o:
+            gv = dmap(o["global_vm"])
+            mgv = magnitude(glob, gv)
+            if set(gv) != set(glob) or any(not near(gv[v], glob[v], mgv[v]) for v in glob):
+                fails.append((where + ": the product of variable_messages per variable is not the global approximation", []))
+            # (a plated variable is one Variable: its count is reported once, on its first plate element)
+            cnt_ = {}
+            for m_ in after:
+                for v in m_:
+                    if not c.get("plate") or v % PLATE_W == 0:
+                        cnt_[v] = cnt_.get(v, 0) + 1
+            if sorted([v, n] for v, n in cnt_.items()) != o["vm_count"]:
+                fails.append((where + ": variable_message_count %s is not the number of factors holding each variable" % o["vm_count"], []))
         new = {v: fnat(unhex(mu), unhex(sg)) for v, mu, sg in s["new"]}
         if s["via"].startswith("inplace"):
             # write-back on the same object: the factor's messages are exactly what was written (the other
@@ -1587,7 +1600,17 @@ def run(ctx):
                 "scripted factor optimisers; (decl) a FactorGraphModel of analysis / hierarchical / prior factors with shared priors, "
                 "its initial state, then EPOptimiser.run or .optimise with scripted optimisers (failures, exceptions, early stop) and "
                 "the history / EPResult accessors. A case is non-trivial when at least two factors share a variable (or a "
-                "hierarchical factor is present) and at least two updates (decl: one sweep) happen; distinct = distinct abstract input")
+                "hierarchical factor is present) and at least two updates (decl: one sweep) happen; distinct = distinct abstract input. "
+                "SWEEP shapes present in every quick run (distributions sweep_*): objects used twice -- one FactorHistory read after "
+                "every appended entry, one EPResult made before the fit and read after every entry, one EPOptimiser called twice "
+                "(run(a), run(b), updater replaced in between), one FactorGraphModel read on a smaller composition and then grown "
+                "(add / add_drawn_variable), one updater object per parameter set shared by all graphs of a driver process, every "
+                "container an EPMeanField hands out cleared by the caller; unusual values -- damping given as int / numpy scalar, "
+                "one-element plates, results numbered downwards (most recent result 0), split 0 / all, names with dots, digits, "
+                "spaces; second routes -- factor_optimisers dict (with / without default) and a factor's own optimiser vs the "
+                "default one, variable_messages product vs mean_field; ids out of declaration and creation order, twin factors "
+                "(same model and analysis objects), a prior under both paths of a hierarchical distribution, a variable drawn "
+                "twice; nine exception classes and warnings raised inside the user's optimiser")
     ctx.trusted = [
         "Coq 8.16.1 kernel incl. vm_compute",
         "correspondence harness c18.py / impl/c18_impl.py; Python float.hex and fractions.Fraction (binary64 -> exact rational)",
@@ -1738,7 +1761,8 @@ MANIFEST = {
             "EPOptimiser.run / EPHistory, parametric in the message group, for every factor graph, state and update sequence "
             "(model = message * cavity = global; update changes one factor only; full valid update makes the global approximation "
             "equal the fitted distribution; damped update interpolates; initial cavity = prior; accessors return the most recent "
-            "entry), with _refuted witnesses where the code as it stands violates the statement, plus a vm_compute correspondence "
+            "entry; a memoised history accessor answers like a fresh object under every sound cache policy -- cached_property "
+            "refuted; two calls of run() equal one run), with _refuted witnesses where the code as it stands violates the statement, plus a vm_compute correspondence "
             "of the model with the running code and a direct property oracle on every generated case",
     "note": "Trusted: Coq kernel + vm_compute, the correspondence harness. Natural parameters are compared with a labelled "
             "tolerance (2^-36 relative to the magnitudes involved) because the code stores (mean, sigma) in binary64 while the model "
